@@ -28,7 +28,7 @@ func c01URL() *url.URL {
 func VerifC01URL() {
 	max := 3
 	if verifrt.Thorough() {
-		max = 5
+		max = 4 // (5 does not finish within half an hour)
 	}
 	switch verifrt.Choice(8) {
 	case 0:
